@@ -35,7 +35,7 @@ def M(data):
 
 TEXTS = ["", "a", "A", "b", "10", "9", "abc", "ABC", " 1", "1 ", "1e1", "1E1", "0x10", "0X10", "1.5", "-1", "+1", "1.0",
          "10.0", "010", ".", "é", "É", "ab", "1a", "0x1A", "0x1a"]
-NTEXTS = ["10", "9", "1.5", "-1", "1e1", "1E1", "0x10", "0X10", " 1", "1 ", "abc", "1.0", "10.0", "010", "+1", "0x1A", "0x1a",
+NTEXTS = ["", "1", "2", "3", "3.5", "7", "7.25", "0", "-0.5", "-3", "-3.5", "10", "9", "1.5", "-1", "1e1", "1E1", "0x10", "0X10", " 1", "1 ", "abc", "1.0", "10.0", "010", "+1", "0x1A", "0x1a",
           "9223372036854775807", "1e300"]
 
 
@@ -74,9 +74,7 @@ def random_values(rng, n):
             if rng.random() < 0.4:
                 t = rng.choice(["%d" % rng.randrange(-50, 50), "%d.%d" % (rng.randrange(0, 20), rng.randrange(0, 100)), "%de%d" % (rng.randrange(1, 9), rng.randrange(0, 4)),
                                 "0x%x" % rng.randrange(0, 300), " %d" % rng.randrange(0, 20), "%d " % rng.randrange(0, 20), "0%o" % rng.randrange(0, 100)])
-            # never T(""): hawk_rtx_makenstrvalwithoochars("") sets the flag on the static zero-length string shared by ALL
-            # empty strings of the process (see zls_probe), which would make results depend on process history
-            out.append(rng.choice([S, S, T, T, M] if t else [S, M])(t))
+            out.append(rng.choice([S, S, T, T, M])(t))
     return out
 
 
@@ -122,17 +120,19 @@ def cfg_bits(cfg):
 
 
 def parse_cmp(line):
-    """'r=0,-1 o=11010001' -> (rc, n|None, ops str|'ERR')"""
+    """'r=0,-1 o=11010001 q=01' -> (rc, n|None, ops str|'ERR', teq-alone str|'ERR')"""
     try:
-        r, o = line.split()
+        f = line.split()
+        r, o = f[0], f[1]
+        q = f[2][2:] if len(f) > 2 and f[2].startswith("q=") else None
         rc, n = r[2:].split(",")
-        return int(rc), (None if n == "x" else int(n)), o[2:]
+        return int(rc), (None if n == "x" else int(n)), o[2:], q
     except Exception:
         return None
 
 
 LAW_NAMES = ["result-range", "antisymmetry", "trichotomy", "lt-iff-gt-swapped", "le-iff-lt-or-eq", "ne-iff-not-eq", "eq-symmetric",
-             "teq-implies-eq", "ops-agree-with-cmpval", "ge-iff-gt-or-eq", "tne-iff-not-teq"]
+             "teq-implies-eq", "ops-agree-with-cmpval", "ge-iff-gt-or-eq", "tne-iff-not-teq", "teq-alone-agrees"]
 
 
 def check_laws(ab, ba):
@@ -140,8 +140,8 @@ def check_laws(ab, ba):
     bad = []
     if ab is None or ba is None:
         return ["unparsable-output"]
-    rc1, n1, o1 = ab
-    rc2, n2, o2 = ba
+    rc1, n1, o1, q1 = ab
+    rc2, n2, o2, q2 = ba
     if rc1 != 0 or rc2 != 0 or o1 == "ERR" or o2 == "ERR" or len(o1) != 8 or len(o2) != 8:
         return ["error-on-scalar-operands"]
     lt, le, eq, ne, ge, gt, teq, tne = [c == "1" for c in o1]
@@ -168,6 +168,8 @@ def check_laws(ab, ba):
         bad.append("ge-iff-gt-or-eq")
     if tne != (not teq):
         bad.append("tne-iff-not-teq")
+    if q1 is not None and (q1 != o1[6:8] or q1 not in ("10", "01")):
+        bad.append("teq-alone-agrees")
     return bad
 
 
@@ -438,6 +440,383 @@ def asort_phase(ctx, sess, cfg, pool, descs, impl, n_cases, stats, hits, corr):
     return len(cases)
 
 
+# ----------------------------------------------------------------------------------------------
+# asortx: every kind of source, destination form and comparator
+# ----------------------------------------------------------------------------------------------
+# fn -> (asorti?, comparator: d default / u user three-way / r user reversed / z user constant 0, source var, destination var)
+FN = {"a1": (False, "d", "X", "G"), "a2": (True, "d", "X", "G"), "a3": (False, "d", "X", "X"), "a4": (True, "d", "X", "X"),
+      "a5": (False, "d", "X", "X"), "a6": (True, "d", "X", "X"), "a7": (False, "d", "G", "G"), "a8": (True, "d", "G", "G"),
+      "u1": (False, "u", "X", "G"), "u2": (True, "u", "X", "G"), "u3": (False, "r", "X", "G"), "u4": (False, "z", "X", "G"),
+      "u5": (False, "u", "X", "X"),
+      # u6: a comparator that fails at run time when it meets the value 13; u7 / u8: argument errors (not a function,
+      # a function of one parameter): the call must fail and leave the destination alone
+      "u6": (False, "e", "X", "G"), "u7": (False, "x", "X", "G"), "u8": (False, "x", "X", "G")}
+FN_WEIGHTED = ["a1"] * 6 + ["a2"] * 6 + ["a3", "a4", "a5", "a6", "u1", "u2", "u3", "u4", "u5"] * 2
+KEY_TEXTS = ["", "a", "A", "b", "10", "9", "2", "1", "01", "1.5", "-1", " 1", "1 ", "1e1", "0x10", "abc", "ABC", "é", "k", "K", "10.0", "+3", "x y", "0"]
+
+
+def head(desc):
+    f = desc.split(";")
+    return ";".join(f[:2]) if desc[0] in "SM" else f[0]
+
+
+def parse_container(txt):
+    if txt == "nil":
+        return ("nil", [])
+    if len(txt) >= 3 and txt[0] in "ma" and txt[1] == "{" and txt[-1] == "}":
+        body = txt[2:-1]
+        items = []
+        for it in (body.split(",") if body else []):
+            k, t = it.split(":", 1)
+            items.append((k if txt[0] == "m" else int(k), t))
+        return (txt[0], items)
+    return ("other", [])
+
+
+def parse_asortx(line):
+    try:
+        f = dict(x.split("=", 1) for x in line.split(" "))
+        return dict(pre=parse_container(f["pre"]), preG=parse_container(f["preG"]), rv=(None if f["rv"] == "ERR" else int(f["rv"])),
+                    X=parse_container(f["X"]), G=parse_container(f["G"]))
+    except Exception:
+        return None
+
+
+def hexkey_text(k):
+    return "".join(chr(int(k[i:i + 4], 16)) for i in range(0, len(k), 4))
+
+
+def asortx_expect(fn, pr):
+    """(source container, list of expected element tokens in traversal order, destination container after the call)"""
+    keys, ck, sv, dv = FN[fn]
+    src = pr["pre"] if sv == "X" else pr["preG"]
+    dst = pr[dv]
+    if keys:
+        exp = [("S" + k) if src[0] == "m" else ("I%d" % k) for k, _ in src[1]]
+    else:
+        exp = [t for _, t in src[1]]
+    return src, exp, dst
+
+
+def asortx_judge(fn, line, pr, tdesc, rcmp):
+    """THE PROPERTY on one real asort/asorti call (model-free). tdesc: token -> descriptor; rcmp(tokA, tokB) -> real hawk_rtx_cmpval n.
+    returns (message, ordered destination tokens | None)"""
+    keys, ck, sv, dv = FN[fn]
+    name = "asorti" if keys else "asort"
+    if pr is None:
+        return ("unparsable harness output: %s" % line[:200], None)
+    src, exp, dst = asortx_expect(fn, pr)
+    if src[0] == "other" or ck == "x":
+        return (None, None)        # argument errors / a scalar source: exercised (sanitizers), not judged by this property
+    n = len(exp)
+    form = "%s(%s%s%s)" % (name, sv, "" if fn in ("a3", "a4") else ", " + dv, {"d": "", "u": ", ucmp", "r": ", urev", "z": ", uzero", "e": ", uerr"}[ck])
+    if pr["rv"] is None and ck == "e":
+        # the user comparator fails at run time when it meets 13: then (and only then) the call may fail, and the
+        # destination must be what it was
+        has13 = any(t in tdesc and head(tdesc[t]) in ("I13", "F13:0") for t in exp)
+        if n >= 2 and has13:
+            if pr["G"] != pr["preG"]:
+                return ("%s: the comparator failed, yet the destination was changed" % form, None)
+            return (None, None)
+    if pr["rv"] is None:
+        return ("%s failed on a source of %d scalar elements" % (form, n), None)
+    if pr["rv"] != n:
+        return ("%s returned %d for a source of %d elements" % (form, pr["rv"], n), None)
+    if n == 0:
+        if dst[1]:
+            return ("%s of a nil/empty source left %d element(s) in the destination" % (form, len(dst[1])), None)
+        return (None, [])
+    if dst[0] not in "ma":
+        return ("%s: the destination is not a map or array afterwards (%s)" % (form, dst[0]), None)
+    try:
+        idx = [(int(hexkey_text(k)) if dst[0] == "m" else k, t) for k, t in dst[1]]
+        if dst[0] == "m" and any(hexkey_text(k) != str(int(hexkey_text(k))) for k, _ in dst[1]):
+            raise ValueError
+    except ValueError:
+        return ("%s: destination subscripts are not 1..%d: %s" % (form, n, [hexkey_text(k) if dst[0] == "m" else k for k, _ in dst[1]][:12]), None)
+    idx.sort()
+    if [i for i, _ in idx] != list(range(1, n + 1)):
+        return ("%s: destination subscripts are not 1..%d: %s" % (form, n, [i for i, _ in idx][:15]), None)
+    out = [t for _, t in idx]
+    if any(t not in tdesc for t in out + exp):
+        return ("%s: a destination element is not a scalar value: %s" % (form, [t for t in out if t not in tdesc][:4]), None)
+    if sorted(head(tdesc[t]) for t in out) != sorted(head(tdesc[t]) for t in exp):
+        missing = sorted(set(head(tdesc[t]) for t in exp) - set(head(tdesc[t]) for t in out))
+        extra = sorted(set(head(tdesc[t]) for t in out) - set(head(tdesc[t]) for t in exp))
+        return ("%s: the result is not a permutation of the source's %s: source has %s, result has %s (missing %s, foreign %s)" % (
+            form, "subscripts" if keys else "values", [token_text(t) for t in exp][:10], [token_text(t) for t in out][:10], missing[:4], extra[:4]), out)
+    kinds = {kind_of(t, tdesc) for t in out}
+    if ck in "dure" and len(kinds) == 1 and kinds <= {"num", "str", "nstr", "mbs", "char", "bchr"}:
+        rng_j = (lambda i: range(i + 1, n)) if n <= 12 else (lambda i: range(i + 1, min(n, i + 2)))
+        for i in range(n):
+            for j in rng_j(i):
+                c = rcmp(out[i], out[j]) if ck != "r" else rcmp(out[j], out[i])
+                if c is None or c > 0:
+                    return ("%s of one-kind input (%s, n=%d) is not %s: [%d]=%s then [%d]=%s (hawk_rtx_cmpval says %s)" % (
+                        form, sorted(kinds)[0], n, "non-increasing" if ck == "r" else "non-decreasing", i + 1, token_text(out[i]), j + 1, token_text(out[j]), c), out)
+    return (None, out)
+
+
+def token_text(t):
+    if t[0] == "F":
+        try:
+            return "F" + repr(float.fromhex(t[1:])) if t[1:].lower().lstrip("-").startswith("0x") else t
+        except Exception:
+            return t
+    return spec_text(t)
+
+
+def eval_chains(sess, cfg, chains):
+    """chains: list of lists of 'asortx ...' lines (a base line followed by `k` lines that work on what the previous call left).
+    returns per chain a list of dict(line, out, pr, judge (msg|None), corr (msg|None), n, onekind) — or None if the harness died"""
+    flat = [l for ch in chains for l in ch]
+    rc, out, err = sess.harness(["cfg %d %d %d %d" % cfg] + flat)
+    if rc != 0 or len(out) != len(flat) + 1:
+        return None, C.classify_rc(rc, err) + " " + err[-600:]
+    out = out[1:]
+    parsed = [parse_asortx(o) for o in out]
+    # every token that occurs, and the subscript tokens
+    toks = set()
+    for l, pr in zip(flat, parsed):
+        if pr is None:
+            continue
+        for c in ("pre", "preG", "X", "G"):
+            toks.update(t for _, t in pr[c][1] if t != "?")
+        fn = l.split()[1]
+        toks.update(asortx_expect(fn, pr)[1])
+    toks.discard("?")
+    toks = sorted(toks)
+    rc, o2, e2 = sess.harness(["cfg %d %d %d %d" % cfg] + ["desc " + t for t in toks] + ["desc " + t for t in toks])
+    if rc != 0 or len(o2) != 2 * len(toks) + 1:
+        return None, "desc pass: " + C.classify_rc(rc, e2)
+    tdesc = dict(zip(toks, o2[1 + len(toks):]))
+    h2t = {}
+    for t in toks:
+        h2t.setdefault(head(tdesc[t]), t)
+    # the model
+    bits = cfg_bits(cfg)
+    mlines = []
+    for l, pr in zip(flat, parsed):
+        fn = l.split()[1]
+        keys, ck, sv, dv = FN[fn]
+        if pr is None:
+            mlines.append("bad")
+            continue
+        src = pr["pre"] if sv == "X" else pr["preG"]
+        if src[0] == "other" or ck == "x" or any(t not in tdesc for _, t in src[1]):
+            mlines.append("bad")
+            continue
+        mlines.append("asortx %s %s %s %s %s" % (bits, ck, "k" if keys else "v", {"nil": "n"}.get(src[0], src[0]), " ".join("%s=%s" % (k, tdesc[t]) for k, t in src[1])))
+    mout = sess.driver(mlines)
+    # real comparisons needed
+    need = set()
+    prelim = []
+    for l, o, pr, ml in zip(flat, out, parsed, mout):
+        fn = l.split()[1]
+        j = asortx_judge(fn, o, pr, tdesc, lambda a, b: 0)          # structure only; order is judged after the cmp pass
+        dsto = j[1]
+        prelim.append(dsto)
+        if dsto:
+            n = len(dsto)
+            if n <= 12:
+                need.update((a, b) for a in dsto for b in dsto)
+            else:
+                need.update((dsto[i], dsto[i + 1]) for i in range(n - 1))
+                need.update((dsto[i + 1], dsto[i]) for i in range(n - 1))
+            if ml.startswith("rv=") and n >= 7:
+                mh = ml.split("out=", 1)[1].split(",") if "out=" in ml and ml.split("out=", 1)[1] else []
+                if len(mh) == n and all(h in h2t for h in mh):
+                    need.update((dsto[i], h2t[mh[i]]) for i in range(n))
+    need = sorted(need)
+    real = {}
+    if need:
+        rc, o3, e3 = sess.harness(["cfg %d %d %d %d" % cfg] + ["cmp %s %s" % p_ for p_ in need])
+        if rc != 0 or len(o3) != len(need) + 1:
+            return None, "cmp pass: " + C.classify_rc(rc, e3)
+        for p_, l in zip(need, o3[1:]):
+            pc = parse_cmp(l)
+            real[p_] = None if pc is None else pc[1]
+    rcmp = lambda a, b: real.get((a, b))
+    res = []
+    k = 0
+    for ch in chains:
+        rr = []
+        for l in ch:
+            o, pr, ml = out[k], parsed[k], mout[k]
+            k += 1
+            fn = l.split()[1]
+            keys, ck, sv, dv = FN[fn]
+            msg, dsto = asortx_judge(fn, o, pr, tdesc, rcmp)
+            cm = None
+            n = len(dsto) if dsto else 0
+            kinds = {kind_of(t, tdesc) for t in dsto} if dsto else set()
+            onekind = len(kinds) == 1 and kinds <= {"num", "str", "nstr", "mbs", "char", "bchr"}
+            if msg is None and dsto is None and ck == "e" and pr is not None and ml != "bad" and (pr["rv"] is None) != (ml == "ERR"):
+                cm = "asort with a failing comparator: implementation %s, model %s" % ("failed" if pr["rv"] is None else "succeeded", ml[:80])
+            if msg is None and dsto is not None and ml != "bad":
+                if not ml.startswith("rv="):
+                    cm = "model failed (%s) where the implementation sorted" % ml
+                else:
+                    mh = ml.split("out=", 1)[1].split(",") if ml.split("out=", 1)[1] else []
+                    ih = [head(tdesc[t]) for t in dsto]
+                    if n < 7:
+                        if mh != ih:
+                            cm = "asort (insertion-sort path of hawk_qsortx, n=%d, %s) differs from the model's isort: impl %s model %s" % (n, fn, ih, mh)
+                    elif onekind and ck in "dure" and len(mh) == n:
+                        for i in range(n):
+                            if mh[i] not in h2t or rcmp(dsto[i], h2t[mh[i]]) != 0:
+                                cm = "asort (n=%d, %s) is not element-wise comparator-equal to the model's sorted list at position %d (theorem sorted_perm_unique): impl %s model %s" % (n, fn, i, ih[i], mh[i])
+                                break
+            rr.append(dict(line=l, out=o, judge=msg, corr=cm, n=n, onekind=onekind, fn=fn, src=(pr["pre"][0] if pr else "?")))
+        res.append(rr)
+    return res, "ok"
+
+
+def gen_asortx_chains(rng, pool, descs, n_cases):
+    by_kind = {}
+    for x in pool:
+        if is_scalar(x):
+            by_kind.setdefault(kind_of(x, descs), []).append(x)
+    allv = [x for x in pool if is_scalar(x)]
+    hk = lambda t: "".join("%04x" % ord(c) for c in t)
+    chains = [
+        # fixed cases, every tier: the shapes named in the class description
+        ["asortx a1 m %s=I3 %s=I1 %s=I2" % (hk("1"), hk("2"), hk("3")), "asortx a1 m"],                       # empty source after a filled destination
+        ["asortx a2 a 1=I50 2=I30 4=I10 5=I70 6=I30 7=I20 8=I80"],                                           # hole in the middle
+        ["asortx a2 a 2=I30 3=I90 4=I10 5=I70", "asortx a8 k"],                                              # hole at the front; result sorted again
+        ["asortx a2 a 0=I5 1=I3 6=I4"],                                                                       # slot 0 and a gap
+        ["asortx a4 a 1=I5 2=I3 3=I9 4=I1 5=I7 -2 -4"],                                                       # deleted elements, in place
+        ["asortx a6 a 0=S0061 3=S0062 9=S0041"],
+        ["asortx a2 m %s=I1 %s=I2 %s=I3 %s=I4 =I5 %s=I6" % (hk("10"), hk("9"), hk("1.5"), hk(" 1"), hk("abc"))],  # numeric-looking / mixed / empty keys
+        ["asortx a5 m %s=I3 %s=I1 %s=F1.5" % (hk("x"), hk("y"), hk("z")), "asortx a7 k", "asortx a8 k"],
+        ["asortx a3 m %s=%s %s=%s" % (hk("k1"), S("b"), hk("k2"), S("a"))],
+        ["asortx u1 m %s=I3 %s=I1 %s=I2" % (hk("1"), hk("2"), hk("3")), "asortx u3 k"],
+        ["asortx u2 a 0=I1 5=I2 3=I3"],
+        ["asortx u4 a 1=I3 2=I1 3=I2"],
+        ["asortx a1 n"], ["asortx a4 n"], ["asortx a2 a"], ["asortx a6 m"],
+        ["asortx u6 a 1=I5 2=I13 3=I7"], ["asortx u6 a 1=I5 2=I12 3=I7"], ["asortx u6 m %s=I13" % hk("1")],      # comparator failing at run time
+        ["asortx u6 m %s=I5 %s=I13 %s=F1.5" % (hk("a"), hk("b"), hk("c"))],
+        ["asortx u7 a 1=I5 2=I3"], ["asortx u8 a 1=I5 2=I3"], ["asortx a1 s"], ["asortx a2 s"],                   # argument errors, scalar source
+    ]
+    for _ in range(n_cases):
+        r = rng.random()
+        n = rng.choice([0, 1, 2, 3, 4, 5, 6, 6, 7, 8, 9, 12, 20, 41, 45, 60, 100]) if rng.random() < 0.8 else rng.randrange(0, 130)
+        if r < 0.70:
+            kind = rng.choice(["num", "num", "str", "str", "nstr", "mbs", "char", "bchr"])
+            srcv = by_kind.get(kind, [])
+            if not srcv:
+                continue
+            if rng.random() < 0.5:
+                srcv = rng.sample(srcv, max(1, min(len(srcv), rng.randrange(2, 8))))
+            vals = [rng.choice(srcv) for _ in range(n)]
+        else:
+            vals = [rng.choice(allv) for _ in range(min(n, 40))]
+        n = len(vals)
+        shape = rng.choice(["md", "md", "md", "mk", "mk", "ad", "ad", "as", "as", "as"])
+        items = []
+        dels = []
+        if shape == "md":
+            items = ["%s=%s" % (hk(str(i + 1)), v) for i, v in enumerate(vals)]
+        elif shape == "mk":
+            ks = list(dict.fromkeys(rng.sample(KEY_TEXTS, min(n, len(KEY_TEXTS))) + ["%s%d" % (rng.choice(["", "k", "0", "1.", "-"]), i) for i in range(n)]))[:n]
+            rng.shuffle(ks)
+            items = ["%s=%s" % (hk(k), v) for k, v in zip(ks, vals)]
+        elif shape == "ad":
+            items = ["%d=%s" % (i + 1, v) for i, v in enumerate(vals)]
+        else:
+            slots = sorted(rng.sample(range(0 if rng.random() < 0.5 else 1, n + rng.randrange(1, 8)), n)) if n else []
+            items = ["%d=%s" % (j, v) for j, v in zip(slots, vals)]
+        if items and rng.random() < 0.3:
+            # a few more elements, removed again with `delete` (front / middle / end)
+            if shape[0] == "m":
+                for i in range(rng.randrange(1, 4)):
+                    k = hk("del%d" % i)
+                    items.insert(rng.randrange(len(items) + 1), "%s=I%d" % (k, i))
+                    dels.append("-" + k)
+            else:
+                used = {int(it.split("=")[0]) for it in items}
+                for j in rng.sample(range(0, max(used) + 3), min(3, max(used) + 3)):
+                    if j not in used:
+                        items.append("%d=I7" % j)
+                        dels.append("-%d" % j)
+                        used.add(j)
+        fn = rng.choice(FN_WEIGHTED)
+        if fn in ("a7", "a8"):
+            fn = "a1"
+        if rng.random() < 0.04 and vals and all(kind_of(x, descs) == "num" for x in vals):
+            fn = "u6"
+            if rng.random() < 0.5:
+                items[rng.randrange(len(items))] = items[0].split("=")[0] + "=I13" if len(items) == 1 else items[rng.randrange(len(items))].split("=")[0] + "=I13"
+        ch = ["asortx %s %s %s" % (fn, "m" if shape[0] == "m" else "a", " ".join(items + dels))]
+        if rng.random() < 0.02:
+            ch = ["asortx %s n" % fn]
+        while rng.random() < 0.25 and len(ch) < 3:
+            ch.append("asortx %s k" % rng.choice(["a7", "a8", "a8"]))
+        chains.append(ch)
+    return chains
+
+
+def asortx_phase(ctx, sess, cfg, pool, descs, n_cases, stats, hits, corr):
+    """the real asort/asorti through the harness on every kind of source / destination form / comparator; the property
+    oracle (asortx_judge) first, the model second.  Returns the number of calls evaluated."""
+    chains = gen_asortx_chains(ctx.rng, pool, descs, n_cases)
+    res, st = eval_chains(sess, cfg, chains)
+    if res is None:
+        # the runtime died somewhere in the batch: find the chain (bounded search)
+        for ch in chains[:400]:
+            r1, st1 = eval_chains(sess, cfg, [ch])
+            if r1 is None:
+                hits.append(("asort/asorti kills the runtime (%s)" % st1[:200], "cfg %d %d %d %d\n" % cfg + "\n".join(ch) + "\n", None))
+                return 0
+        corr.append(("asortx harness batch failed (%s) but no single chain reproduces it" % st[:300], "cfg %d %d %d %d\n" % cfg + "\n".join(chains[0]) + "\n"))
+        return 0
+    nhit = 0
+    ncalls = 0
+    for ch, rr in zip(chains, res):
+        for r in rr:
+            ncalls += 1
+            stats["asort_calls"] = stats.get("asort_calls", 0) + 1
+            n = r["n"]
+            key = "asort_%s_%s_%s" % (r["fn"], r["src"], "0" if n == 0 else "1-6" if n < 7 else "7-40" if n <= 40 else ">40")
+            stats[key] = stats.get(key, 0) + 1
+            if r["onekind"] and r["judge"] is None:
+                stats["asort_one_kind"] = stats.get("asort_one_kind", 0) + 1
+        bad = [r for r in rr if r["judge"]]
+        if bad and nhit < 2 and len(hits) < 4:      # bound what a violating tree can cost: at most 4 shrunk reports per run
+            nhit += 1
+            # shrink: ddmin over the items of the base line (the follow-up `k` lines stay), judged in a fresh process; confirm
+            w = ch[0].split()
+            headw, items = w[:3], w[3:]
+
+            def fails(sub):
+                r1, _ = eval_chains(sess, cfg, [[" ".join(headw + list(sub))] + ch[1:]])
+                return r1 is None or any(x["judge"] for x in r1[0])
+            small = C.ddmin(items, fails, max_tests=40) if len(items) > 1 else items
+            ch2 = [" ".join(headw + list(small))] + ch[1:]
+            # drop follow-up lines that are not needed
+            for cut in range(1, len(ch2)):
+                r1, _ = eval_chains(sess, cfg, [ch2[:cut]])
+                if r1 is None or any(x["judge"] for x in r1[0]):
+                    ch2 = ch2[:cut]
+                    break
+            r1, _ = eval_chains(sess, cfg, [ch2])
+            if r1 is not None and not any(x["judge"] for x in r1[0]):
+                ch2 = ch
+                r1, _ = eval_chains(sess, cfg, [ch2])
+            if r1 is None:
+                hits.append(("asort/asorti kills the runtime", "cfg %d %d %d %d\n" % cfg + "\n".join(ch2) + "\n", None))
+            else:
+                b = [x for x in r1[0] if x["judge"]]
+                if b:
+                    hits.append((b[0]["judge"], "# feed to harness/cmp_h.c\ncfg %d %d %d %d\n" % cfg + "\n".join(ch2) + "\n# impl:\n" + "\n".join(x["out"] for x in r1[0]) + "\n", None))
+                else:
+                    corr.append((bad[0]["judge"] + " — seen once inside a batch, not reproducible in a fresh process", "cfg %d %d %d %d\n" % cfg + "\n".join(ch) + "\n"))
+        for r in rr:
+            if r["corr"] and len(corr) < 8:
+                corr.append((r["corr"], "cfg %d %d %d %d\n" % cfg + "\n".join(ch) + "\n# impl: %s\n" % r["out"][:400]))
+    return ncalls
+
+
 def hawk_literal(spec):
     """hawk source text that evaluates to the value, or None"""
     k = spec[0]
@@ -468,7 +847,8 @@ def hawk_literal(spec):
 
 
 def cli_phase(ctx, libdir, sess, cfg, pool, descs, impl, n_progs, stats, hits):
-    """asort/asorti at language level through the CLI: literals, map and hawk::array sources, in-place and two-argument forms"""
+    """asort/asorti at language level through the CLI: literals; map, hawk::array (dense, sparse, slot 0, deleted elements),
+    numeric-looking map keys; two-argument, in-place, source = destination forms; a result sorted again"""
     hawk = os.path.join(libdir, "hawk")
     rng = ctx.rng
     ic, nc, ss, fm = cfg
@@ -479,15 +859,33 @@ def cli_phase(ctx, libdir, sess, cfg, pool, descs, impl, n_progs, stats, hits):
         by_kind.setdefault(kind_of(s, descs), []).append(s)
     # numeric strings at language level: the keys handed out by for-in carry the numeric-string flag
     nstr_txt = [t for t in ["10", "9", "1.5", "-1", "1e1", "010", "1.0", "0x10"] if T(t) in descs and descs[T(t)][1] != "0"]
+
+    def key_of(s):
+        """(typename, printed text) of a pool value, from its descriptor"""
+        d = descs[s]
+        k = d[0]
+        tn = {"N": "nil", "C": "char", "B": "bchar", "I": "int", "F": "flt", "S": "str", "M": "mbs"}[k]
+        if k in "IF":
+            os_ = [f for f in d.split(";") if f.startswith("os=")][0][3:]
+            return (tn, "".join(chr(int(os_[i:i + 4], 16)) for i in range(0, len(os_), 4)))
+        if k == "S":
+            u = d.split(";")[1]
+            return (tn, "".join(chr(int(u[i:i + 4], 16)) for i in range(0, len(u), 4)))
+        if k == "M":
+            return (tn, bytes.fromhex(d.split(";")[1]).decode("latin-1"))
+        if k == "C" or k == "B":
+            return (tn, chr(int(d[1:])))
+        return (tn, "")
+
     evals = 0
     for pi in range(n_progs):
-        blocks = []
+        blocks = []        # dict(form, kind, exp: [(typename, text)], spec_of: {(typename, text): spec}, ordered: bool)
         stm = ["IGNORECASE = %d;" % ic]
         ncalls = rng.randrange(2, 6)
         for ci in range(ncalls):
             r = rng.random()
             n = rng.choice([0, 1, 2, 3, 5, 6, 7, 9, 15, 41, 50])
-            if r < 0.15 and nstr_txt:
+            if r < 0.12 and nstr_txt:
                 kind = "nstr"
                 els = [T(rng.choice(nstr_txt)) for _ in range(n)]
             elif r < 0.75:
@@ -496,21 +894,59 @@ def cli_phase(ctx, libdir, sess, cfg, pool, descs, impl, n_progs, stats, hits):
             else:
                 kind = "mixed"
                 els = [rng.choice(list(lit)) for _ in range(min(n, 9))]
-            form = rng.choice(["map2", "map1", "arr2", "keys"])
+            form = rng.choice(["map2", "map1", "arr2", "keys", "arrsp_v", "arrsp_k", "same", "resort_k", "mapkeys"])
             if kind == "nstr":
                 form = "map2"
             v = "x%d" % ci
+            y = "y%d" % ci
+            exp = None
+            spec_of = {}
             if form == "keys":
                 kind = "str"
-                keys = list({rng.choice(by_kind["str"]) for _ in range(n)})
-                els = keys
-                for k in keys:
+                els = list({rng.choice(by_kind["str"]) for _ in range(n)})
+                for k in els:
                     stm.append("%s[%s] = 1;" % (v, lit[k]))
-                stm.append("r = asorti(%s, y%d);" % (v, ci))
-                stm.append("y%d[\"stale\"]; delete y%d[\"stale\"];" % (ci, ci))
+                stm.append("r = asorti(%s, %s);" % (v, y))
+                stm.append("%s[\"stale\"]; delete %s[\"stale\"];" % (y, y))
+            elif form == "mapkeys":
+                # numeric-looking, numeric and mixed subscripts of a map: asorti returns them as plain strings
+                kind = "str"
+                ks = list(dict.fromkeys(rng.choice(["10", "9", "1.5", "-1", "007", " 1", "1e1", "abc", "2", "11", "100", "x", ""]) for _ in range(n)))
+                for k in ks:
+                    stm.append("%s[%s] = 1;" % (v, ("\"%s\"" % k) if (rng.random() < 0.6 or not k.isdigit() or k != str(int(k))) else k))
+                exp = [("str", k) for k in ks]
+                spec_of = {("str", k): S(k) for k in ks}
+                els = ks
+                stm.append("r = asorti(%s, %s);" % (v, y))
             elif form == "arr2":
                 stm.append("%s = hawk::array(%s);" % (v, ", ".join(lit[e] for e in els)) if els else "%s = hawk::array(1); delete %s[1];" % (v, v))
-                stm.append("r = asort(%s, y%d);" % (v, ci))
+                stm.append("r = asort(%s, %s);" % (v, y))
+            elif form in ("arrsp_v", "arrsp_k"):
+                # an array whose occupied slots are not 1..n: elements deleted from the front / middle, slot 0, a far slot
+                base = els if els else [rng.choice(list(lit))]
+                stm.append("%s = hawk::array(%s);" % (v, ", ".join(lit[e] for e in base)))
+                slots = {i + 1: e for i, e in enumerate(base)}
+                for dslot in rng.sample(sorted(slots), min(len(slots), rng.randrange(0, 4))):
+                    stm.append("delete %s[%d];" % (v, dslot))
+                    del slots[dslot]
+                if rng.random() < 0.5:
+                    e = rng.choice(base)
+                    stm.append("%s[0] = %s;" % (v, lit[e]))
+                    slots[0] = e
+                if rng.random() < 0.5:
+                    e = rng.choice(base)
+                    far = len(base) + rng.randrange(2, 6)
+                    stm.append("%s[%d] = %s;" % (v, far, lit[e]))
+                    slots[far] = e
+                if form == "arrsp_v":
+                    els = [slots[k] for k in sorted(slots)]
+                    stm.append("r = asort(%s, %s);" % (v, y))
+                else:
+                    kind = "num"
+                    els = sorted(slots)
+                    exp = [("int", str(k)) for k in els]
+                    spec_of = {("int", str(k)): "I%d" % k for k in els}
+                    stm.append("r = asorti(%s, %s);" % (v, y))
             else:
                 if kind == "nstr":
                     # the values are for-in keys of helper maps (flag set by hawk_rtx_makenstrvalwithoochars)
@@ -523,14 +959,26 @@ def cli_phase(ctx, libdir, sess, cfg, pool, descs, impl, n_progs, stats, hits):
                 if not els:
                     stm.append("%s[1] = 1; delete %s[1];" % (v, v))
                 if form == "map1":
-                    stm.append("r = asort(%s); for (k in %s) y%d[k] = %s[k];" % (v, v, ci, v))
+                    stm.append("r = asort(%s); for (k in %s) %s[k] = %s[k];" % (v, v, y, v))
+                elif form == "same":
+                    stm.append("r = asort(%s, %s); for (k in %s) %s[k] = %s[k];" % (v, v, v, y, v))
+                elif form == "resort_k":
+                    # the subscripts of a previous result: "1".."n"
+                    kind = "str"
+                    stm.append("asort(%s, t%d); r = asorti(t%d, %s);" % (v, ci, ci, y))
+                    exp = [("str", str(i + 1)) for i in range(len(els))]
+                    spec_of = {("str", str(i + 1)): S(str(i + 1)) for i in range(len(els))}
                 else:
                     if rng.random() < 0.3:
-                        stm.append("y%d[1] = \"stale1\"; y%d[2] = \"stale2\"; y%d[77] = \"stale3\";" % (ci, ci, ci))
-                    stm.append("r = asort(%s, y%d);" % (v, ci))
-            stm.append("printf \"call|%d|%%d|%%d\\n\", r, length(y%d);" % (ci, ci))
-            stm.append("for (i = 1; i <= length(y%d); i++) printf \"out|%d|%%s|%%s\\n\", hawk::typename(y%d[i]), y%d[i];" % (ci, ci, ci, ci))
-            blocks.append((form, kind, els))
+                        stm.append("%s[1] = \"stale1\"; %s[2] = \"stale2\"; %s[77] = \"stale3\";" % (y, y, y))
+                    stm.append("r = asort(%s, %s);" % (v, y))
+            stm.append("printf \"call|%d|%%d|%%d\\n\", r, length(%s);" % (ci, y))
+            stm.append("for (i = 1; i <= length(%s); i++) printf \"out|%d|%%s|%%s\\n\", hawk::typename(%s[i]), %s[i];" % (y, ci, y, y))
+            if exp is None:
+                exp = [key_of(e) for e in els]
+                for e in els:
+                    spec_of.setdefault(key_of(e), e)
+            blocks.append(dict(form=form, kind=kind, exp=exp, spec_of=spec_of, ordered=(kind != "mixed")))
         prog = "BEGIN { " + " ".join(stm) + " }"
         args = ["timeout", "-s", "KILL", "30", hawk, "--ncmponstr=%s" % ("on" if nc else "off"), "--stripstrspc=%s" % ("on" if ss else "off"), prog]
         rc, out, err = C.sh(args, timeout=40, env=C.ASAN_ENV)
@@ -546,11 +994,26 @@ def cli_phase(ctx, libdir, sess, cfg, pool, descs, impl, n_progs, stats, hits):
             f = l.split("|", 3)
             if f[0] == "call":
                 calls[int(f[1])] = (int(f[2]), int(f[3]))
-            elif f[0] == "out":
+            elif f[0] == "out" and len(f) == 4:
                 got.setdefault(int(f[1]), []).append((f[2], f[3]))
-        for ci, (form, kind, els) in enumerate(blocks):
-            n = len(els)
+        # real comparison results the pool matrix does not hold (subscript values)
+        need = set()
+        for ci, b in enumerate(blocks):
+            o = got.get(ci, [])
+            if b["ordered"] and sorted(o) == sorted(b["exp"]):
+                seq = [b["spec_of"][k] for k in o]
+                need.update((seq[i], seq[i + 1]) for i in range(len(seq) - 1) if (seq[i], seq[i + 1]) not in impl)
+        if need:
+            need = sorted(need)
+            rc3, o3, e3 = sess.harness(["cfg %d %d %d %d" % cfg] + ["cmp %s %s" % p_ for p_ in need])
+            if rc3 == 0 and len(o3) == len(need) + 1:
+                for p_, l in zip(need, o3[1:]):
+                    impl[p_] = parse_cmp(l)
+        for ci, b in enumerate(blocks):
+            form, kind, exp = b["form"], b["kind"], b["exp"]
+            n = len(exp)
             stats["cli_calls"] = stats.get("cli_calls", 0) + 1
+            stats["cli_" + form] = stats.get("cli_" + form, 0) + 1
             o = got.get(ci, [])
             if ci not in calls:
                 hits.append(("hawk CLI printed no result for asort call %d" % ci, replay, None))
@@ -560,35 +1023,16 @@ def cli_phase(ctx, libdir, sess, cfg, pool, descs, impl, n_progs, stats, hits):
                 if ln != 0 or rv != 0:
                     hits.append(("asort/asorti (CLI, form %s) of an empty source returned %d and left %d element(s) in the destination" % (form, rv, ln), replay, SIG_EMPTY))
                 continue
-            # expected multiset as (typename, printed text): printed text comes from the descriptor's own string form
-            def key_of(s):
-                d = descs[s]
-                k = d[0]
-                tn = {"N": "nil", "C": "char", "B": "bchar", "I": "int", "F": "flt", "S": "str", "M": "mbs"}[k]
-                if k in "IF":
-                    os_ = [f for f in d.split(";") if f.startswith("os=")][0][3:]
-                    return (tn, "".join(chr(int(os_[i:i + 4], 16)) for i in range(0, len(os_), 4)))
-                if k == "S":
-                    u = d.split(";")[1]
-                    return (tn, "".join(chr(int(u[i:i + 4], 16)) for i in range(0, len(u), 4)))
-                if k == "M":
-                    return (tn, bytes.fromhex(d.split(";")[1]).decode("latin-1"))
-                if k == "C" or k == "B":
-                    return (tn, chr(int(d[1:])))
-                return (tn, "")
-            exp = sorted(key_of(s) for s in els)
-            if rv != n or ln != n or sorted(o) != exp:
-                hits.append(("asort (CLI, form %s, kind %s) did not return a permutation of its input: rv=%d length=%d expected %d elements; got %s" % (form, kind, rv, ln, n, o[:12]), replay, None))
+            if rv != n or ln != n or sorted(o) != sorted(exp):
+                hits.append(("asort/asorti (CLI, form %s, kind %s) did not return a permutation of its input: rv=%d length=%d; expected the %d elements %s; got %s" % (
+                    form, kind, rv, ln, n, sorted(exp)[:12], o[:12]), replay, None))
                 return evals
-            if kind != "mixed" or form == "keys":
-                k2s = {}
-                for s in els:
-                    k2s.setdefault(key_of(s), s)
-                seq = [k2s[k] for k in o]
+            if b["ordered"]:
+                seq = [b["spec_of"][k] for k in o]
                 for i in range(n - 1):
                     p = impl.get((seq[i], seq[i + 1]))
                     if p is None or p[1] is None or p[1] > 0:
-                        hits.append(("asort (CLI, form %s) of one-kind input (%s) is not non-decreasing at position %d: %s then %s" % (form, kind, i, o[i], o[i + 1]), replay, None))
+                        hits.append(("asort/asorti (CLI, form %s) of one-kind input (%s) is not non-decreasing at position %d: %s then %s" % (form, kind, i, o[i], o[i + 1]), replay, None))
                         return evals
                 stats["cli_one_kind"] = stats.get("cli_one_kind", 0) + 1
     return evals
@@ -735,6 +1179,10 @@ def run(ctx):
         # (1) the property's laws, directly on the real outputs (no model involved)
         for (a, b) in pairs:
             if not (is_scalar(a) and is_scalar(b)):
+                pq = impl[(a, b)]
+                if pq is not None and pq[3] is not None and pq[3] not in ("10", "01") and len(reported) < 6 and (cfg, frozenset((a, b))) not in reported:
+                    reported.add((cfg, frozenset((a, b))))
+                    hits.append(("`===` and `!==` are not complementary (or fail) for a=%s b=%s: %s" % (spec_text(a), spec_text(b), impl_l[(a, b)]), pair_replay(cfg, a, b), None))
                 continue
             if nontrivial_pair(cfg, a, b):
                 nontrivial.add((cfg, a, b))
@@ -777,7 +1225,7 @@ def run(ctx):
             samples.append("cfg=%s %s vs %s -> %s" % ("".join(map(str, cfg)), spec_text(a), spec_text(b), impl_l[(a, b)]))
         # (3) asort / asorti
         if cfg[3] == 1:
-            evaluations += asort_phase(ctx, sess, cfg, pool, descs, impl, 60 if quick else 1500, stats, hits, corr)
+            evaluations += asortx_phase(ctx, sess, cfg, pool, descs, 60 if quick else 1500, stats, hits, corr)
             if ci < (2 if quick else 8):
                 evaluations += cli_phase(ctx, libdir, sess, cfg, pool, descs, impl, 6 if quick else 100, stats, hits)
         ctx.log("cfg ic=%d nc=%d ss=%d fm=%d: %d values, %d ordered pairs, model diffs %d, property hits so far %d" % (cfg + (len(full), len(pairs), ndiff, len(hits))))
@@ -845,8 +1293,9 @@ def replay(ctx, path):
     bad = 0
     res = {}
     for l, o in zip(lines, out):
-        print("%-60s impl: %s" % (l[:60], o[:200]))
         w = l.split()
+        if w[0] != "asortx":
+            print("%-60s impl: %s" % (l[:60], o[:200]))
         if w[0] == "cmp":
             res[(w[1], w[2])] = parse_cmp(o)
             rc2, o2, e2 = sess.harness([lines[0], "desc " + w[1], "desc " + w[2], "desc " + w[1], "desc " + w[2]])
@@ -854,7 +1303,19 @@ def replay(ctx, path):
             print("%-60s model: %s" % ("", m[0]))
             if m[0] != o:
                 bad += 1
-    # asort lines: judge each with the property oracle in a fresh process
+    # asortx lines: one chain, judged with the property oracle, compared with the model
+    chain = [l for l in lines if l.split()[0] == "asortx"]
+    if chain:
+        r1, st1 = eval_chains(sess, cfg, [chain])
+        if r1 is None:
+            print("asortx chain: the runtime died (%s)" % st1[:300])
+            bad += 1
+        else:
+            for x in r1[0]:
+                print("%s\n   impl: %s\n   property: %s\n   model: %s" % (x["line"][:200], x["out"][:400], "holds" if x["judge"] is None else "BROKEN: " + x["judge"], "agrees" if x["corr"] is None else x["corr"]))
+                if x["judge"] or x["corr"]:
+                    bad += 1
+    # asort lines (older replay files): judge each with the property oracle in a fresh process
     for l in lines:
         w = l.split()
         if w[0] == "asort":
